@@ -18,7 +18,7 @@ from concurrent.futures import ThreadPoolExecutor
 from .common import *
 from .histlib import HistGen, run_scripts
 
-KINDS = ("commit_pub", "commit_enc", "proposal_pub", "proposal_enc", "app", "welcome", "group_info", "tree")
+KINDS = ("commit_pub", "commit_enc", "commit_ext", "proposal_pub", "proposal_enc", "app", "welcome", "group_info", "tree")
 
 
 def build_script(rng, i, quick):
@@ -110,6 +110,16 @@ def build_script(rng, i, quick):
     sweeps.append((len(ops) - 1, "group_info", "observer", gi, "trunc"))
     ops.append({"op": "sweep", "who": snd, "msg": gi + ".tree", "gi": gi, "target": "observe_tree", "kind": "bits", "stride": stride * 4 + 1, "tree": gi + ".tree"})
     sweeps.append((len(ops) - 1, "tree", "observer", gi + ".tree", "bits"))
+    # ---- an external commit (PublicMessage of a new member: no membership tag, the confirmation tag is
+    # checked only by recomputation) swept against the members
+    xouts = [o for o in g.outsiders() if o != joiner]
+    if len(xouts) >= 2:
+        xc = g.fresh("xc")
+        ops.append({"op": "ext_commit", "who": xouts[-1], "gi": gi, "tree": gi + ".tree", "id": xc})
+        for r in rcv[:2]:
+            for mode in ("bits", "trunc"):
+                ops.append({"op": "sweep", "who": r, "msg": xc, "kind": mode, "stride": stride if mode == "bits" else 1, "other": cm[0][0], "seed": i + 5, "count": 160})
+                sweeps.append((len(ops) - 1, "commit_ext", r, xc, mode))
     # ---- messages made in this epoch but first seen in the NEXT one: an encrypted proposal that
     # nobody has processed yet and a NewMemberProposal (no membership tag, signature without context)
     late = []
@@ -118,7 +128,7 @@ def build_script(rng, i, quick):
     ops.append({"op": "propose", "who": others[-1], "kind": "gce", "id": pe, "ext_data": "0c0d"})
     late.append(pe)
     ops.append({"op": "opts", "who": others[-1], "encrypt_controls": False})
-    outs = [o for o in g.outsiders() if o != joiner]
+    outs = [o for o in g.outsiders() if o != joiner][:1]
     if outs:
         gi2 = g.fresh("gi")
         ops.append({"op": "group_info", "who": snd, "id": gi2, "ext_commit": False, "tree_ext": True})
